@@ -546,7 +546,7 @@ func c16Run(in *bufio.Scanner, w *bufio.Writer) {
 					if ev == "closed" {
 						res = "tick closed"
 					}
-				case <-time.After(2500 * time.Millisecond):
+				case <-time.After(6 * time.Second):
 				}
 			case <-time.After(c16StepTimeout):
 				res = "tick timeout"
